@@ -5,6 +5,7 @@ from ..enumerate import Out, hex_states, per_state, replay_per_state
 from ..hexsys import apply_op, restore
 from ..ref import mpt
 from ..report import Report
+from .common import add_scale
 from .c08 import ann, describe
 
 
@@ -179,8 +180,12 @@ def run(tier, seed):
     for name, kw in plans:
         sysm, states = hex_states(rep, name, **kw)
         per_state(rep, name + " iteration", sysm, states, make_fn())
+    add_scale(rep, "C10", prunes=(False,))
     return rep
 
 
 def replay(doc):
+    if doc["system"].get("system") == "scale":
+        from .common import replay_hex
+        return replay_hex(doc)
     return replay_per_state(doc, make_fn())
